@@ -27,14 +27,20 @@ the list of methods that exist and their signatures):
   option string, or a dispatch through a module-level dict literal {'<flag>': <setter>} applied as
   `f = D.get(o) | D[o]; [assert ...]; f(<settings>, a)` / `D[o](<settings>, a)` where each setter (def, lambda
   or factory product) is read like an if-branch; variables may be locals or attributes of one settings
-  object whose defaults are the `self.<attr> = <const>` of its class's __init__ -
+  object whose defaults are the `self.<attr> = <const>` of its class's __init__, or entries `d['<key>']` of one
+  dict literal; a branch `elif o in <literal tuple / list / set / dict or module-level name of one>:` is read once
+  per member as if it were `elif o == <member>` (`<TABLE>[o]` over a literal dict is evaluated); the getopt
+  string may be a module-level constant; a branch whose test cannot be read refuses BY NAME every option of
+  the getopt string that no readable branch binds -
   (flag -> what is done with the value: store as string / int(a, 0) / int(a) / the
   one-hop routing list / set True / usage+exit / version+exit) with each local variable
   named by its SINK (where main hands it to the library - followed into module-level helpers such
   as `_setup_logging(verbose)`), so renaming a local or extracting a helper is harmless; a statement
   `helper(args...)` calling a module-level def is inlined (parameters substituted, `if <literal> is
   [not] None` decided) before the except bodies are read;
-  the exception handlers around the command (exception class, text printed, exit status);
+  the exception handlers around the command (exception class, text printed, exit status) - one clause per
+  class, or one clause for a tuple of classes whose message comes from a helper
+  `def f(e): if isinstance(e, A): return ...; if isinstance(e, B): return ...; return None`, specialised per class;
   the shape of that try: `<conn>.open()` inside its body before `cmd(<conn>, args)` (or directly
   before the try), `<conn>.close()` as its only finally statement, nothing after it.
 * chassis power: for each 'chassis power <x>' entry the method's body in
@@ -141,6 +147,46 @@ def vkey(n):
         return n.id
     if isinstance(n, ast.Attribute) and isinstance(n.value, ast.Name):
         return n.value.id + '.' + n.attr
+    if isinstance(n, ast.Subscript) and isinstance(n.value, ast.Name) and isinstance(n.slice, ast.Constant) \
+            and isinstance(n.slice.value, str):
+        return n.value.id + '.' + n.slice.value          # one dict used as settings object: rmcp['host']
+    return None
+
+
+class _ConstLookup(ast.NodeTransformer):
+    """<TABLE>['<literal>'] / <TABLE>.get('<literal>') for a module-level dict literal with literal keys -> its value"""
+
+    def __init__(self, assigns):
+        self.assigns = assigns
+
+    def _tab(self, name):
+        d = self.assigns.get(name)
+        if isinstance(d, ast.Dict) and all(isinstance(k, ast.Constant) for k in d.keys):
+            return {k.value: v for k, v in zip(d.keys, d.values)}
+        return None
+
+    def visit_Subscript(self, node):
+        self.generic_visit(node)
+        if isinstance(node.ctx, ast.Load) and isinstance(node.value, ast.Name) and isinstance(node.slice, ast.Constant):
+            t = self._tab(node.value.id)
+            if t is not None and node.slice.value in t and isinstance(t[node.slice.value], ast.Constant):
+                return ast.copy_location(copy.deepcopy(t[node.slice.value]), node)
+        return node
+
+
+def literal_keys(node, assigns):
+    """the literal members of `o in <node>`: a tuple / list / set / dict literal of constants, or a module-level name
+    bound once to one; None when not statically evaluable"""
+    if isinstance(node, ast.Name):
+        node = assigns.get(node.id)
+    if isinstance(node, ast.Dict):
+        elts = node.keys
+    elif isinstance(node, (ast.Tuple, ast.List, ast.Set)):
+        elts = node.elts
+    else:
+        return None
+    if all(isinstance(e, ast.Constant) and isinstance(e.value, str) for e in elts):
+        return [e.value for e in elts]
     return None
 
 
@@ -582,6 +628,10 @@ def var_roles(fn, funcs=None, depth=0):
                 inner = var_roles(callee, funcs, depth + 1)
                 env = bind_call(callee, n)
                 for prm, arg in (env or {}).items():
+                    if isinstance(arg, ast.Name):
+                        for ik, ir in inner.items():
+                            if ik.startswith(prm + '.'):
+                                roles.setdefault(arg.id + ik[len(prm):], set()).update(ir)
                     if vkey(arg) is not None and prm in inner:
                         # only sinks that identify a role on their own
                         keep = set(r for r in inner[prm] if r != 'verbose' or callee.name not in ('usage',))
@@ -655,11 +705,16 @@ def tr_options(main, funcs=None):
         if isinstance(n, ast.Call) and dotted(n.func) in ('getopt.getopt', 'getopt.gnu_getopt', 'getopt'):
             getopt_call = n
     short, longs, flavour = 'None', '[]', 'getopt.getopt'
+    getopt_letters = []
     if getopt_call is not None:
         flavour = dotted(getopt_call.func)
         a = getopt_call.args
-        if len(a) >= 2 and isinstance(a[1], ast.Constant) and isinstance(a[1].value, str):
-            short = '(Some %s)' % q(a[1].value)
+        a1 = a[1] if len(a) >= 2 else None
+        if isinstance(a1, ast.Name) and isinstance((funcs or {}).get('__assigns__', {}).get(a1.id), ast.Constant):
+            a1 = funcs['__assigns__'][a1.id]
+        if isinstance(a1, ast.Constant) and isinstance(a1.value, str):
+            short = '(Some %s)' % q(a1.value)
+            getopt_letters = [c for c in a1.value if c != ':']
         if len(a) >= 3:
             if isinstance(a[2], (ast.List, ast.Tuple)) and all(isinstance(e, ast.Constant) and isinstance(e.value, str) for e in a[2].elts):
                 longs = coq_list([q(e.value) for e in a[2].elts])
@@ -713,24 +768,43 @@ def tr_options(main, funcs=None):
 
     lbody = [st for st in loop.body]
     if len(lbody) == 1 and isinstance(lbody[0], ast.If):
-        # ---- shape 1: if o == '-x': ... elif ...: ... else: assert False
+        # ---- shape 1: if o == '-x': ... elif o in <literal table>: ... else: assert False
+        assigns = funcs.get('__assigns__', {})
         node = lbody[0]
+        unreadable = []
         while node is not None:
             t = node.test
-            if not (isinstance(t, ast.Compare) and len(t.ops) == 1 and isinstance(t.ops[0], ast.Eq)
-                    and isinstance(t.left, ast.Name) and t.left.id == optvar
-                    and isinstance(t.comparators[0], ast.Constant) and isinstance(t.comparators[0].value, str)):
-                entries.append('mkOpt "" (AUntranslated %s)' % q('test at line %d is not `o == <str>`' % node.lineno))
-            else:
+            simple = isinstance(t, ast.Compare) and len(t.ops) == 1 and isinstance(t.left, ast.Name) and t.left.id == optvar
+            if simple and isinstance(t.ops[0], ast.Eq) and isinstance(t.comparators[0], ast.Constant) \
+                    and isinstance(t.comparators[0].value, str):
                 entries.append('mkOpt %s (%s)' % (q(t.comparators[0].value), tr_branch(node.body, 'body at line %d' % node.lineno)))
+            elif simple and isinstance(t.ops[0], ast.In) and literal_keys(t.comparators[0], assigns) is not None:
+                # one branch for several options: read it once per member, as if it were `elif o == <member>`
+                for key in literal_keys(t.comparators[0], assigns):
+                    body = [_ConstLookup(assigns).visit(_Subst({optvar: ast.Constant(value=key)}).visit(copy.deepcopy(st)))
+                            for st in node.body]
+                    for st in body:
+                        ast.fix_missing_locations(st)
+                    entries.append('mkOpt %s (%s)' % (q(key), tr_branch(body, 'body at line %d for %s' % (node.lineno, key))))
+            else:
+                unreadable.append('test at line %d is neither `o == <str>` nor `o in <literal table>`' % node.lineno)
             nxt = node.orelse
             if len(nxt) == 1 and isinstance(nxt[0], ast.If):
                 node = nxt[0]
             else:
                 if not (len(nxt) == 1 and isinstance(nxt[0], ast.Assert) and isinstance(nxt[0].test, ast.Constant)
                         and nxt[0].test.value is False) and nxt:
-                    entries.append('mkOpt "" (AUntranslated "final else is not `assert False`")')
+                    unreadable.append('final else is not `assert False`')
                 node = None
+        if unreadable:
+            # a branch that could not be read may stand for every option getopt accepts that no readable branch binds:
+            # each of them is refused BY NAME (never an unnamed option)
+            bound = set(re.findall(r'mkOpt "(-\w)"', ' '.join(entries)))
+            for c in getopt_letters:
+                if '-' + c not in bound:
+                    entries.append('mkOpt %s (AUntranslated %s)' % (q('-' + c), q(unreadable[0])))
+            if not getopt_letters:
+                entries.append('mkOpt "" (AUntranslated %s)' % q(unreadable[0]))
     else:
         # ---- shape 2: dispatch through a module-level dict literal  {'-x': <setter>, ...}:
         #        f = D.get(o) | D[o] ; [assert f is not None] ; f(<settings>, a)      or   D[o](<settings>, a)
@@ -813,6 +887,11 @@ def tr_options(main, funcs=None):
                         else:
                             defaults.append('("", DUntranslated %s)' % q('statement in %s.__init__' % v.func.id))
                     continue
+            if isinstance(v, ast.Dict) and v.keys and all(isinstance(k, ast.Constant) and isinstance(k.value, str) for k in v.keys):
+                for k, dv in zip(v.keys, v.values):
+                    key = var + '.' + k.value
+                    defaults.append('(%s, %s)' % (q(role_of(key, roles, globals_declared)), tr_default(dv, key)))
+                continue
             defaults.append('(%s, %s)' % (q(role_of(var, roles, globals_declared)), tr_default(v, var)))
     return short, longs, entries, defaults
 
@@ -828,43 +907,89 @@ def tr_exits(main, funcs=None):
                     target = n
     if target is None:
         return ['mkExit "" None false None (Some "no try around cmd(ipmi, args)")']
+    funcs = funcs or {}
+
+    def value_for_class(f, call, cls, others):
+        """the value `f(<exception>)` returns when the exception is an instance of `cls` (and of none of `others`):
+        f's body may be `if isinstance(<param>, <Class>): return <expr>` statements followed by `return <expr>`"""
+        env = bind_call(f, call)
+        if env is None:
+            raise Untranslated('call of %s outside the fragment' % f.name)
+        for st in strip_doc(f.body):
+            if isinstance(st, ast.If) and not st.orelse and len(st.body) == 1 and isinstance(st.body[0], ast.Return) \
+                    and isinstance(st.test, ast.Call) and isinstance(st.test.func, ast.Name) and st.test.func.id == 'isinstance' \
+                    and len(st.test.args) == 2 and isinstance(st.test.args[0], ast.Name) and st.test.args[0].id in env \
+                    and dotted(st.test.args[1]) is not None:
+                tested = dotted(st.test.args[1]).split('.')[-1]
+                if tested == cls:
+                    v = st.body[0].value
+                    return _Subst(env).visit(copy.deepcopy(v)) if v is not None else ast.Constant(value=None)
+                if tested in others:
+                    continue                      # another class of the same except clause
+                raise Untranslated('isinstance test against %s in %s' % (tested, f.name))
+            if isinstance(st, ast.Return):
+                v = st.value
+                return _Subst(env).visit(copy.deepcopy(v)) if v is not None else ast.Constant(value=None)
+            raise Untranslated('statement in %s outside the fragment' % f.name)
+        return ast.Constant(value=None)
+
     out = []
     for h in target.handlers:
-        name = dotted(h.type) if h.type is not None else None
-        if name is None:
+        if isinstance(h.type, ast.Tuple) and all(dotted(e) is not None for e in h.type.elts):
+            names = [dotted(e).split('.')[-1] for e in h.type.elts]
+        elif h.type is not None and dotted(h.type) is not None:
+            names = [dotted(h.type).split('.')[-1]]
+        else:
             out.append('mkExit "" None false None (Some "handler type outside the fragment")')
             continue
-        name = name.split('.')[-1]
-        text, uses_cc, code, bad = None, False, None, None
-        for s in inline_stmts(h.body, funcs or {}):
-            if isinstance(s, ast.Expr) and isinstance(s.value, ast.Call):
-                c = s.value
-                if isinstance(c.func, ast.Name) and c.func.id == 'print' and len(c.args) == 1 and not c.keywords:
-                    a = c.args[0]
-                    if isinstance(a, ast.Constant) and isinstance(a.value, str):
-                        text = a.value
-                    elif isinstance(a, ast.BinOp) and isinstance(a.op, ast.Mod) and isinstance(a.left, ast.Constant) \
-                            and isinstance(a.left.value, str) and isinstance(a.right, ast.Attribute) \
-                            and a.right.attr == 'cc' and isinstance(a.right.value, ast.Name) and a.right.value.id == h.name:
-                        text, uses_cc = a.left.value, True
+        for name in names:
+            text, uses_cc, code, bad = None, False, None, None
+            # a local bound once to the value of a helper applied to the exception is replaced by that value,
+            # specialised to this exception class
+            env, body = {}, []
+            try:
+                for st in h.body:
+                    if isinstance(st, ast.Assign) and len(st.targets) == 1 and isinstance(st.targets[0], ast.Name) \
+                            and isinstance(st.value, ast.Call) and isinstance(st.value.func, ast.Name) \
+                            and st.value.func.id in funcs and isinstance(funcs[st.value.func.id], ast.FunctionDef):
+                        env[st.targets[0].id] = value_for_class(funcs[st.value.func.id], st.value, name,
+                                                                [n for n in names if n != name])
                     else:
-                        bad = 'print argument outside the fragment'
-                elif dotted(c.func) == 'sys.exit':
-                    code = exit_code_of(c)
-                    if code is None:
-                        bad = 'sys.exit argument outside the fragment'
+                        x = _Subst(env).visit(copy.deepcopy(st))
+                        ast.fix_missing_locations(x)
+                        body.append(x)
+            except Untranslated as e:
+                out.append('mkExit %s None false None (Some %s)' % (q(name), q(str(e))))
+                continue
+            for s in inline_stmts(body, funcs):
+                if isinstance(s, ast.Expr) and isinstance(s.value, ast.Call):
+                    c = s.value
+                    if isinstance(c.func, ast.Name) and c.func.id == 'print' and len(c.args) == 1 and not c.keywords:
+                        a = c.args[0]
+                        if isinstance(a, ast.Constant) and isinstance(a.value, str):
+                            text = a.value
+                        elif isinstance(a, ast.BinOp) and isinstance(a.op, ast.Mod) and isinstance(a.left, ast.Constant) \
+                                and isinstance(a.left.value, str) and isinstance(a.right, ast.Attribute) \
+                                and a.right.attr == 'cc' and isinstance(a.right.value, ast.Name) and a.right.value.id == h.name:
+                            text, uses_cc = a.left.value, True
+                        else:
+                            bad = 'print argument outside the fragment'
+                    elif dotted(c.func) == 'sys.exit':
+                        code = exit_code_of(c)
+                        if code is None:
+                            bad = 'sys.exit argument outside the fragment'
+                    else:
+                        bad = 'statement outside the fragment (line %d)' % s.lineno
+                elif isinstance(s, ast.If) and vkey(s.test) is not None and len(s.body) == 1 and not s.orelse \
+                        and isinstance(s.body[0], ast.Expr) and isinstance(s.body[0].value, ast.Call) \
+                        and dotted(s.body[0].value.func) == 'traceback.print_exc':
+                    pass                                   # if verbose: traceback.print_exc()
                 else:
-                    bad = 'statement outside the fragment (line %d)' % s.lineno
-            elif isinstance(s, ast.If) and vkey(s.test) is not None and len(s.body) == 1 and not s.orelse \
-                    and isinstance(s.body[0], ast.Expr) and isinstance(s.body[0].value, ast.Call) \
-                    and dotted(s.body[0].value.func) == 'traceback.print_exc':
-                pass                                   # if verbose: traceback.print_exc()
-            else:
-                bad = 'statement outside the fragment (line %d)' % s.lineno
-        out.append('mkExit %s %s %s %s %s' % (q(name), 'None' if text is None else '(Some %s)' % q(text),
-                                              'true' if uses_cc else 'false',
-                                              'None' if code is None else '(Some (%d)%%Z)' % code,
-                                              'None' if bad is None else '(Some %s)' % q(bad)))
+                    bad = 'statement outside the fragment (line %d)' % getattr(s, 'lineno', 0)
+            out.append('mkExit %s %s %s %s %s' % (q(name), 'None' if text is None else '(Some %s)' % q(text),
+                                                  'true' if uses_cc else 'false',
+                                                  'None' if code is None else '(Some (%d)%%Z)' % code,
+                                                  'None' if bad is None else '(Some %s)' % q(bad)))
     return out
 
 
@@ -1002,14 +1127,15 @@ def tr_power(cmd_names, repo, funcs=None):
                     from pyipmi.msgs import message as M
                     cls = R.registry[reqname + 'Req']
                     fields = cls.__fields__
-                    if len(fields) != 1 or type(fields[0]) is not M.Bitfield or fields[0].name != field or fields[0].length != 1:
+                    if len(fields) != 1 or not isinstance(fields[0], M.Bitfield) or fields[0].name != field or fields[0].length != 1:
                         raise Untranslated('%sReq is not a single one-byte bitfield %s' % (reqname, field))
                     off = 0
                     pos = None
-                    for b in fields[0]._bits:
+                    import fieldprobe
+                    for b in fieldprobe.bits_of(fields[0], M):
                         if b.name == bit:
-                            pos = (off, b._width)
-                        off += b._width
+                            pos = (off, b.width)
+                        off += b.width
                     if pos is None:
                         raise Untranslated('no bit %s in %s' % (bit, field))
                     cc = 'CCReq %d %d %d %d %d' % (cls.__netfn__, cls.__cmdid__, cls.__default_lun__, pos[0], pos[1])
